@@ -61,9 +61,10 @@ NOT_REACHED = [
     "PEER azimuth pairs outside (h, h+90), h <= 45 (e.g. 350/080) where 'closest to north' and 'first horizontal' differ",
     "miniSEED files with gaps / more than one segment per channel, sample-count corruption inside miniSEED/GCF records",
     "records longer than 20000 samples except the real example files (180001 samples)",
+    "GCF samples beyond +-2^30 (obspy's GCF codec does not round-trip larger first differences: 'last data != RIC')",
 ]
-BUDGET = {"quick": dict(cases=300, seconds=60, shards=4),
-          "thorough": dict(cases=8000, seconds=600, shards=16)}
+BUDGET = {"quick": dict(cases=1200, seconds=60, shards=4),
+          "thorough": dict(cases=30000, seconds=600, shards=16)}
 REQUIRED = ["mon:reads-valid-files", "mon:samples-on-right-components", "mon:time-step", "mon:orientation",
             "mon:order-invariant", "mon:count-mismatch-refused", "mon:missing-or-duplicate-refused",
             "mon:unrecognised-refused", "mon:read-routing", "mon:read-results"]
@@ -222,10 +223,14 @@ def call_read_single(ctx, fnames, kwargs, deg, info, label=""):
     try:
         rec = hvsrpy.read_single(fnames, obspy_read_kwargs=kw, degrees_from_north=deg)
     except Exception as exc:
+        if kw != kwargs:
+            ctx.count("caller_reader_options_dict_modified_by_hvsrpy(not judged)")
         ctx.check(False, "reads-valid-files", f"read_single raised on a valid file set ({label}): {exc!r}",
                   variant=label, explicit_degrees=deg, reader_options=kwargs, **info)
         return None
     ctx.check(True, "reads-valid-files")
+    if kw != kwargs:
+        ctx.count("caller_reader_options_dict_modified_by_hvsrpy(not judged)")
     names = rec.meta.get("file name(s)") if isinstance(getattr(rec, "meta", None), dict) else None
     given = [str(f) for f in fnames] if isinstance(fnames, (list, tuple)) else [str(fnames)]
     ctx.count("meta_names_the_files" if names is not None and all(g in str(names) for g in given) else "meta_lacks_file_names")
@@ -293,9 +298,23 @@ def read_and_judge(ctx, fnames, kwargs, deg, exp, info, label):
 # builders (one valid file set each; used by the format families, the corrupted family and read())
 # --------------------------------------------------------------------------------------------------
 
+def obspy_write(ctx, fmt, writer, *args):
+    """A writer of the trusted base that refuses the data is a harness limit, never a finding."""
+    try:
+        writer(*args)
+        return True
+    except Exception:
+        ctx.count(f"harness_obspy_writer_refused:{fmt}")
+        return False
+
+
 def readback_ok(ctx, path, fmt, traces, suffix_only=False):
     """Trusted-base cross-check: obspy itself returns the written traces, in order. Returns delta or None."""
-    back = FF.obspy_readback(path, fmt)
+    try:
+        back = FF.obspy_readback(path, fmt)
+    except Exception:
+        ctx.count(f"harness_obspy_roundtrip_failed:{fmt}")
+        return None
     ok = len(back) == len(traces)
     if ok:
         for (ch, x), (bch, bx, _) in zip(traces, back):
@@ -342,7 +361,8 @@ def build_mseed1(ctx, rng, d, n, order=("vt", "ns", "ew"), tag="m1", shared=None
     data, enc, codes, fs, reclen, bo = shared[:6]
     path = os.path.join(d, f"{tag}_{''.join(LETTER[c] for c in order)}.mseed")
     traces = [(codes[c], data[c]) for c in order]
-    FF.write_mseed(path, traces, fs, enc, reclen, bo)
+    if not obspy_write(ctx, "MSEED", FF.write_mseed, path, traces, fs, enc, reclen, bo):
+        return None
     ctx.count("files_written:mseed")
     delta = readback_ok(ctx, path, "MSEED", [(ch, np.asarray(x).astype(FF.MSEED_DTYPES[enc])) for ch, x in traces])
     if delta is None:
@@ -358,7 +378,8 @@ def build_mseed3(ctx, rng, d, n, tag="m3"):
     paths, delta = {}, None
     for c in COMPS:
         paths[c] = os.path.join(d, f"{tag}_{LETTER[c]}.mseed")
-        FF.write_mseed(paths[c], [(codes[c], data[c])], fs, enc, reclen, bo)
+        if not obspy_write(ctx, "MSEED", FF.write_mseed, paths[c], [(codes[c], data[c])], fs, enc, reclen, bo):
+            return None
         ctx.count("files_written:mseed")
         delta = readback_ok(ctx, paths[c], "MSEED", [(codes[c], np.asarray(data[c]).astype(FF.MSEED_DTYPES[enc]))])
         if delta is None:
@@ -382,7 +403,8 @@ def build_sac(ctx, rng, d, n, byteorder=None, tag="sac"):
     paths, deltas = {}, []
     for c in COMPS:
         paths[c] = os.path.join(d, f"{tag}_{LETTER[c]}_{'le' if bo == '<' else 'be'}.sac")
-        FF.write_sac(paths[c], codes[c], data[c], fs, bo)
+        if not obspy_write(ctx, "SAC", FF.write_sac, paths[c], codes[c], data[c], fs, bo):
+            return None
         ctx.count("files_written:sac-" + ("little" if bo == "<" else "big"))
         delta = readback_ok(ctx, paths[c], "SAC", [(codes[c], data[c])])
         if delta is None:
@@ -398,13 +420,14 @@ def build_sac(ctx, rng, d, n, byteorder=None, tag="sac"):
 
 def build_gcf(ctx, rng, d, n, order=("vt", "ns", "ew"), tag="g", shared=None):
     if shared is None:
-        (vt, ns, ew), mode = gen_ints(rng, n)
+        (vt, ns, ew), mode = gen_ints(rng, n, limit=2 ** 30)      # first differences must fit 32 bits for obspy's GCF codec
         codes, prefix = codes_for(rng)
         shared = ({"vt": vt, "ns": ns, "ew": ew}, "int32", codes, float(rng.choice(FS_GCF)), None, None, mode, prefix)
     data, _, codes, fs = shared[:4]
     path = os.path.join(d, f"{tag}_{''.join(LETTER[c] for c in order)}.gcf")
     traces = [(codes[c], data[c]) for c in order]
-    FF.write_gcf(path, traces, fs)
+    if not obspy_write(ctx, "GCF", FF.write_gcf, path, traces, fs):
+        return None
     ctx.count("files_written:gcf")
     delta = readback_ok(ctx, path, "GCF", traces, suffix_only=True)   # GCF keeps only the orientation letter
     if delta is None:
@@ -1005,6 +1028,9 @@ def fam_read(ctx, rng):
             RECORD[0] = False
         events = list(EVENTS)
         ctx.count("read_single_events_observed", len(events))
+        now = [kw_arg] * k if isinstance(kw_arg, dict) else (list(kw_arg) if kw_arg is not None else [None] * k)
+        if any(a != b for a, b in zip(now, kw_each)):
+            ctx.count("caller_reader_options_dict_modified_by_hvsrpy(not judged)")
         problems = routing_discrepancies(events, wanted) if err is None else \
             [f"read() raised {err!r} after {len(events)} read_single call(s)"] + routing_discrepancies(events, wanted[:len(events)])
         ctx.check(not problems, "read-routing", "read() did not hand every recording its own degrees_from_north / reader options: "
@@ -1092,7 +1118,8 @@ def fam_examples(ctx, rng):
         ctx.count("example_samples_cross_checked", 3 * int(p["ndat"]))
     else:
         ps = [FF.parse_peer(f) for f in files]
-        if any(q["npts"] != q["data"].size for q in ps) or [q["code"] for q in ps] != ["UP", "360", "090"]:
+        if any(q["npts"] != q["data"].size for q in ps) or [q["code"].lstrip("0") for q in ps] != ["UP", "360", "90"] \
+                or len({q["dt"] for q in ps}) != 1:
             ctx.count("example_not_parsed_independently")
             return
         keep = min(q["npts"] for q in ps)
